@@ -734,6 +734,17 @@ func projDriverOp(coll lungo.ICollection, op string, pr bson.D) ([]bson.D, error
 	panic("bad op " + op)
 }
 
+// projDriverOpSafe: panics of the library are reported, not propagated
+func projDriverOpSafe(coll lungo.ICollection, op string, pr bson.D) (out []bson.D, err error, panicked bool) {
+	defer func() {
+		if recover() != nil {
+			panicked = true
+		}
+	}()
+	out, err = projDriverOp(coll, op, pr)
+	return
+}
+
 func projStored(coll lungo.ICollection) []bson.D {
 	ctx := context.Background()
 	cur, err := coll.Find(ctx, bson.D{})
@@ -1181,6 +1192,16 @@ func oracleC14Direct(doc, pr bson.D, st *oracleStats, fail func(string, string, 
 	var leaves []string
 	leafPaths(*res, "", &leaves)
 	for _, lp := range leaves {
+		// what an exclusion leaves of a partly excluded value is checked below
+		related := false
+		for _, p := range excl {
+			if kind == "exclusion" && (isPrefix(normPath(p), normPath(lp)) || isPrefix(normPath(lp), normPath(p))) {
+				related = true
+			}
+		}
+		if related {
+			continue
+		}
 		if !sameValue(bsonkit.Get(res, lp), bsonkit.Get(&doc, lp)) {
 			fail("C14:leaf-not-stored", "a value in the result differs from the stored value at the same path", detail("path", lp, "result", enc(*res)))
 			return
@@ -1359,17 +1380,7 @@ func oracleC14Driver(r *rng, st *oracleStats, fail func(string, string, map[stri
 	coll := projFreshCollection(docs)
 	defer coll.Drop(context.Background())
 	before := projStored(coll)
-	var got []bson.D
-	var err error
-	panicked := false
-	func() {
-		defer func() {
-			if recover() != nil {
-				panicked = true
-			}
-		}()
-		got, err = projDriverOp(coll, op, pr)
-	}()
+	got, err, panicked := projDriverOpSafe(coll, op, pr)
 	after := projStored(coll)
 	// stored documents: unchanged, except for the update the call asked for
 	want := make([]bson.D, len(before))
@@ -1426,9 +1437,13 @@ func oracleC14Driver(r *rng, st *oracleStats, fail func(string, string, map[stri
 		}
 	}
 	// later results: the same query again
-	again, err := projDriverOp(coll, "find", pr)
-	if err != nil {
-		fail("C14:later-result-differs", "the same projection fails on a later query", detail())
+	again, err, panicked := projDriverOpSafe(coll, "find", pr)
+	if err != nil || panicked {
+		// the projection may legitimately fail on another document of the
+		// collection; after a successful Find it cannot
+		if op == "find" {
+			fail("C14:later-result-differs", "the same projection fails on a later query", detail())
+		}
 		return
 	}
 	for i := range src {
